@@ -62,7 +62,7 @@ def run(ctx):
     if not binp:
         return
     quick = ctx.tier == "quick"
-    ntrace = 700 if quick else 6000
+    ntrace = 450 if quick else 6000
     rc, rows, err = ctx.jsonl([binp, "trace", "-seed", str(ctx.seed), "-n", str(ntrace)])
     rc2, wrows, err2 = ctx.jsonl([binp, "witness"])
     if rc != 0 or rc2 != 0 or not rows or not wrows:
